@@ -586,8 +586,8 @@ def parse_assignment_indices(indices, shape):
         of ``(slice(0,2), 5, [4,1,-1])`` will have implied shape
         ``[2,3]``.
     reverse : `list`
-        The positions of the dimensions whose indices in the
-        parsed_indices output are reversed slices.
+        The positions, within implied_shape, of the dimensions whose
+        indices in the parsed_indices output are reversed slices.
     implied_shape_positions: `list`
         The positions of the dimensions whose indices contribute to
         the implied_shape. For instance, indices of ``(slice(0,2), 5,
@@ -660,7 +660,10 @@ def parse_assignment_indices(indices, shape):
                 stop = start + div_step + 1
 
                 index = slice(start, stop, step)
-                reverse.append(i)
+                # position within implied_shape (integer indices before this
+                # dimension contribute nothing to it), which is what the
+                # value-reversal in setitem_array_expr indexes by
+                reverse.append(len(implied_shape))
 
             start, stop, step = index.indices(size)
 
